@@ -1445,12 +1445,8 @@ def nontrivial(rows, desc):
 
 
 def comma_runs_ok(rows, desc):
-    """False when some run of the model holds >= 3 features of one comma-holding seqid: the unchanged tree does not merge
-    those (see ASSUMPTIONS) and such inputs are not generated."""
-    if "seqid" not in desc:
-        return True
-    m = [model_row(r) for r in rows]
-    return not any(len(r) >= 3 and "," in m[r[0]]["seqid"] for r in M.single_pass(m, desc))
+    """(Formerly a filter for runs of >= 3 features on one comma-holding seqid, which the tree mis-merged before F-C16-3.)"""
+    return True      # F-C16-3 is repaired: runs of three and more features on one comma-holding seqid are generated and judged
 
 
 def gen_comma(rng):
